@@ -36,3 +36,32 @@ func Hs(ss []string) string {
 	}
 	return "[" + strings.Join(xs, "; ") + "]"
 }
+
+// HS renders a list of byte strings as one literal decoded by Hex.hexs (no
+// element may be the only one and empty).
+func HS(ss []string) string {
+	xs := make([]string, len(ss))
+	for i, s := range ss {
+		xs[i] = hex.EncodeToString([]byte(s))
+	}
+	return `(HS "` + strings.Join(xs, ",") + `")`
+}
+
+// TS renders tagged byte strings (tag < 256) as one literal decoded by Hex.tagged_hexs.
+func TS(tags []int, ss []string) string {
+	xs := make([]string, len(ss))
+	for i, s := range ss {
+		xs[i] = hex.EncodeToString(append([]byte{byte(tags[i])}, s...))
+	}
+	return `(TS "` + strings.Join(xs, ",") + `")`
+}
+
+// LS renders a list of arbitrary byte strings (empty ones included) as one
+// literal decoded by Hex.list_hexs.
+func LS(ss []string) string {
+	xs := make([]string, len(ss))
+	for i, s := range ss {
+		xs[i] = "00" + hex.EncodeToString([]byte(s))
+	}
+	return `(LS "` + strings.Join(xs, ",") + `")`
+}
